@@ -511,7 +511,7 @@ func runC18(c *fw.Ctx) {
 	}
 	idx += 100
 	// histories over two sets
-	nh := c.Pick(1500, 30000)
+	nh := c.Pick(1500, 300000)
 	for k := 0; k < nh; k++ {
 		if !c.Begin(idx + k) {
 			continue
